@@ -10,8 +10,9 @@ class C04(Spec):
     required_theorems = ("C04.uncommitted_noop", "C04.rollback_noop", "C04.never_committed_noop", "C04.commit_exact",
                          "C04.commit_exact_content", "C04.memSet_empty_keeps_pending", "C04.commit_exact_old_false",
                          "C04.commit_marker_writes_nothing", "C04.second_commit_notfound", "C04.forks_independent",
-                         "C04.ops_commute", "C04.commit_exact_content_full", "C04.forks_independent_full")
-    partial = ("C04.commit_exact_content",)
+                         "C04.ops_commute", "C04.commit_exact_content_full", "C04.forks_independent_full", "C04.pending_root_frame",
+                         "C04.pending_entry_reachable")
+    partial = ("C04.commit_exact_content", "C04.forks_independent")
     level_text = ("Lean 4 theorems over the store LTS (state = configuration, record map, pending-tree map, node cache; labels "
                   "Set/MemSet/Commit/Rollback/Get/restart; transition functions = the executable model of mavl.go used by "
                   "C01/C02): MemSet and Rollback, and any interleaving of MemSet/Rollback/Get/restart requests, leave the record "
@@ -31,12 +32,13 @@ class C04(Spec):
                   "Lean driver; bursts of concurrent requests through queue + BaseStore.processMessage (built with -race), replies "
                   "printed in canonical order and replayed sequentially; predicate: every committed root returns exactly its "
                   "committed content after every step and after restart.")
-    level_note = ("Configurations without memTree/MVCC (default, prefix, prune with a huge interval): with memTree+memVal a rolled-back "
+    level_note = ("Review follow-up: commit_exact now allows every request except Commit r / Rollback r / restart in between (Set, MemSet, Commit and Rollback of other roots, Get) and hands out the entry n' that commit_exact_content(_full) speaks about; the noop theorems conclude about Store.get at every root without a pending tree (dbRead), not only about .db; pending_root_frame: the MemSet root is independent of pending entries, caches and unrelated commits. pending_entry_reachable: in a store satisfying the invariant C01.SInv (new store; kept by every Store.Set on a known root, C01.setKV_sinv) a non-empty MemSet on a known root leaves a pending tree with exactly the hypotheses of commit_exact_content_full (PH/Shape/KeyMin/DBInv .. W/PersistedStored/FitsRec/depth) and the updated key/value list, so those hypotheses are reachable (stores without prefix and MVCC). Listed as partial: the Consistent versions (stores with the height prefix). NOT done: one invariant for arbitrary interleavings (pending entries carried across later Sets/Commits: SInv has no pending part; PersistedStored.mono is the lemma that needs); collision disjuncts are located. Commit/Commit and Commit/MemSet commutation at record level and the atomicity of labels remain assumptions tied by the race-enabled concurrent run. "
+                  "Configurations without memTree/MVCC (default, prefix, prune with a huge interval): with memTree+memVal a rolled-back "
                   "pending state stays readable by its own root hash through the global cache — not a violation (the property speaks "
                   "of reads at committed roots) — and the memTree defects at committed roots are C02's findings. Concurrent bursts "
                   "only contain requests on distinct roots (those are the ones ops_commute covers); Commit/Commit commutation at the "
                   "record level is not proved. commit_exact_content_full / forks_independent_full drop `Consistent` for stores without the height prefix "
-                  "('... or Collision H'); with the prefix the `Consistent` versions remain.")
+                  "('... or CollisionIn H (strings hashed in the pending tree and in the nodes saved before)', located); with the prefix the `Consistent` versions remain.")
     assumptions = (
         "sync.Map operations and one batch write are atomic (labels are atomic steps)",
         "goleveldb behaves as a key/value map with atomic batches",
